@@ -89,11 +89,15 @@ Definition gmrf_grad (delta : Qc) (Pop : qmat_t) (m x : list Qc) : list Qc :=
   qvneg (qvscale delta (qmatvec Pop (qvsub x m))).
 Definition gmrf_logk (delta : Qc) (Pop : qmat_t) (m x : list Qc) : Qc :=
   let d := qvsub x m in - (half * delta * qdot d (qmatvec Pop d)).
+Definition check_gmrf_grad (delta : Qc) (Pop D : qmat_t) (m x : list Qc) (g : list Q) : bool :=
+  let n := length x in
+  let mm := qbcast n m in
+  qcll_eqb Pop (qmatmul n (qtranspose n D) D) && symb n Pop &&
+  vec_close tol9 g (gmrf_grad delta Pop mm x).
 Definition check_gmrf (delta : Qc) (Pop D : qmat_t) (m x x1 : list Qc) (g : list Q) (dobs : Q) : bool :=
   let n := length x in
   let mm := qbcast n m in
-  qcll_eqb Pop (qmatmul n (qtranspose (length D) D) D) && symb n Pop &&
-  vec_close tol9 g (gmrf_grad delta Pop mm x) &&
+  check_gmrf_grad delta Pop D m x g &&
   q_close tol9 dobs (this (gmrf_logk delta Pop mm x1 - gmrf_logk delta Pop mm x)).
 
 (* ------------------------------------------------------------------------------------------
@@ -119,12 +123,45 @@ Definition lik_grad (A B : qmat_t) (ga gb gc : Qc) (P : qmat_t) (data th : list 
 Definition lik_logk (A B : qmat_t) (ga gb gc : Qc) (P : qmat_t) (data th : list Qc) : Qc :=
   let r := qvsub data (fwd A B (geo_fun ga gb gc th)) in - (half * qdot r (qmatvec P r)).
 
-Definition check_lik (form : gform) (p : gparam) (P A B : qmat_t) (ga gb gc : Qc)
-           (data th th1 : list Qc) (g : list Q) (dobs : Q) : bool :=
+(* as a likelihood `self.prec @ dev` is handed to model.gradient: a scalar (prec vector) or a shape
+   error (prec scalar, m > 1) both end in an exception; sqrtprec forms have no `prec`.
+   fix29 = true: prec applied through sqrtprec, every form returns the vector. *)
+Definition lik_kind (fix29 : bool) (form : gform) (p : gparam) (m : nat) : gkind :=
+  if fix29 then KGrad else
+  match form, p with
+  | FSqrtPrec, _ => KRefused
+  | FPrec, PScalar _ => if Nat.eqb m 1 then KGrad else KRefused
+  | FPrec, PVector _ => KRefused
+  | _, _ => KGrad
+  end.
+
+(* `data` is the observed data for a Gaussian data distribution and log(observed data) -- supplied
+   by the harness as the float numpy computed, a certificate -- for a Lognormal one *)
+Definition check_lik (fix29 : bool) (form : gform) (p : gparam) (P A B : qmat_t) (ga gb gc : Qc)
+           (data th th1 : list Qc) (o : obs) (dobs : Q) : bool :=
   let m := length data in
   implied_prec_ok m form p P && symb m P &&
-  vec_close tol9 g (lik_grad A B ga gb gc P data th) &&
-  q_close tol9 dobs (this (lik_logk A B ga gb gc P data th1 - lik_logk A B ga gb gc P data th)).
+  q_close tol9 dobs (this (lik_logk A B ga gb gc P data th1 - lik_logk A B ga gb gc P data th)) &&
+  match lik_kind fix29 form p m, o with
+  | KGrad, ObsVec g => vec_close tol9 g (lik_grad A B ga gb gc P data th)
+  | KRefused, ObsRaised => true
+  | _, _ => false
+  end.
+
+(* ------------------------------------------------------------------------------------------
+   Lognormal prior with a full covariance: logpdf(x) = -sum ln x_i - 1/2 (ln x - m)^T P (ln x - m) + const,
+   Lognormal._gradient = diag(1/x) (-1 + normal.gradient(ln x)).  lx = ln x is supplied as a certificate
+   (the floats numpy computed); the model is the rational function of (x, lx). *)
+Definition qvinv (x : list Qc) : list Qc := map (fun a => / a) x.
+Definition lognormal_grad (P : qmat_t) (m x lx : list Qc) : list Qc :=
+  vmul (qvinv x) (map (fun g => g - 1) (quad_grad P m lx)).
+Definition qsum (l : list Qc) : Qc := fold_right Qcplus 0 l.
+Definition lognormal_logk (P : qmat_t) (m lx : list Qc) : Qc := quad_logk P m lx - qsum lx.
+Definition check_lognormal_prior (P : qmat_t) (m x lx x1 lx1 : list Qc) (g : list Q) (dobs : Q) : bool :=
+  let n := length x in
+  let mm := qbcast n m in
+  symb n P && vec_close tol9 g (lognormal_grad P mm x lx) &&
+  q_close tol9 dobs (this (lognormal_logk P mm lx1 - lognormal_logk P mm lx)).
 
 (* ------------------------------------------------------------------------------------------
    sum rule: Posterior._gradient = likelihood.gradient + prior.gradient;
@@ -151,8 +188,12 @@ Inductive geomk := GeoIdentity | GeoWithGradient | GeoOther.
 Inductive meank := MeanConst | MeanModel | MeanCallable.
 Inductive outcome := OGrad | OFD | ORefused | ONone | ONaN.
 
-Record fixes := { fix8_gmrf : bool;     (* GMRF: the NotImplementedError is actually raised *)
-                  fix8_warn : bool }.   (* Gaussian/Lognormal/CMRF: raise instead of warn + None *)
+Record fixes := { fix8_gmrf : bool;        (* GMRF: the NotImplementedError is actually raised *)
+                  fix8_gauss : bool;       (* Gaussian: raise instead of warn + None *)
+                  fix8_lognormal : bool;   (* Lognormal: raise instead of warn + None *)
+                  fix8_cmrf : bool }.      (* CMRF: raise instead of warn + None *)
+Definition all_fixed : fixes := {| fix8_gmrf := true; fix8_gauss := true; fix8_lognormal := true; fix8_cmrf := true |}.
+Definition none_fixed : fixes := {| fix8_gmrf := false; fix8_gauss := false; fix8_lognormal := false; fix8_cmrf := false |}.
 
 (* Cauchy, SmoothedLaplace and Uniform override `gradient` itself: the FD switch is not consulted *)
 Definition overrides_gradient (f : dfam) : bool :=
@@ -174,14 +215,14 @@ Definition analytic (fx : fixes) (f : dfam) (g : geomk) (m : meank) (cond insupp
       match m with
       | MeanConst => if cond then ORefused else OGrad
       | MeanModel => OGrad
-      | MeanCallable => none_or_refuse (fix8_warn fx)
+      | MeanCallable => none_or_refuse (fix8_gauss fx)
       end
   | DGMRF =>
       if negb idgeo then ORefused else
       match m with MeanConst => if cond then ORefused else OGrad | _ => none_or_refuse (fix8_gmrf fx) end
   | DCMRF =>
       if negb idgeo then ORefused else
-      match m with MeanConst => if cond then ORefused else OGrad | _ => none_or_refuse (fix8_warn fx) end
+      match m with MeanConst => if cond then ORefused else OGrad | _ => none_or_refuse (fix8_cmrf fx) end
   | DCauchy | DBeta | DInvGamma =>
       if negb idgeo then ORefused else if cond then ORefused else
       match m with MeanConst => if insupp then OGrad else ONaN | _ => ORefused end
@@ -190,7 +231,7 @@ Definition analytic (fx : fixes) (f : dfam) (g : geomk) (m : meank) (cond insupp
       match m with
       | MeanConst => if cond then ORefused else if insupp then OGrad else ONaN
       | MeanModel => if insupp then OGrad else ONaN
-      | MeanCallable => none_or_refuse (fix8_warn fx)
+      | MeanCallable => none_or_refuse (fix8_lognormal fx)
       end
   | DSmoothedLaplace =>
       match m with MeanConst => if cond then ORefused else OGrad | _ => ORefused end
